@@ -247,6 +247,13 @@ func (br *biRun) check(l *biLive, op string) bool {
 			br.fail(op+":Range-early-stop", fmt.Sprintf("callback said stop at call %d, Range made %d calls", stop, calls))
 			return false
 		}
+		// a full Range right after a Range that was stopped early
+		full := 0
+		l.b.Range(func(int, string) bool { full++; return true })
+		if full != n {
+			br.fail(op+":Range-after-early-stop", fmt.Sprintf("a Range that followed a Range stopped after %d calls visited %d of %d pairs", stop, full, n))
+			return false
+		}
 	}
 	return true
 }
@@ -405,7 +412,33 @@ func c11big(c *core.Ctx) {
 		return
 	}
 	for phase := 0; phase < 5; phase++ {
-		switch r.Intn(6) {
+		switch r.Intn(7) {
+		case 6:
+			// a storm of Clears: Clear while big, then 300 rounds of (Add a few, Clear)
+			hist = append(hist, "Clear x 300 with small refills")
+			b.Clear()
+			fw, rv = map[int]string{}, map[string]int{}
+			probes := []int{0, n / 2, n - 1}
+			for i := 0; i < 300; i++ {
+				for k := 0; k < i%3; k++ {
+					b.Add(-10-k, fmt.Sprintf("storm%d", k))
+				}
+				b.Clear()
+				// after EVERY Clear the map is empty (a generation counter that wraps makes old
+				// pairs live again at one particular Clear only)
+				visited := 0
+				b.Range(func(int, string) bool { visited++; return true })
+				bad := b.Len() != 0 || visited != 0
+				for _, k := range probes {
+					if _, ok := b.GetForward(k); ok || b.ContainsReverse(val(k)) {
+						bad = true
+					}
+				}
+				if bad {
+					fail("Clear:not-empty", fmt.Sprintf("after Clear number %d of a storm of Clears (the first one on %d pairs) the Bimap is not empty: Len()=%d, Range visits %d pairs", i+2, n, b.Len(), visited))
+					return
+				}
+			}
 		case 5:
 			// shrink a formerly big Bimap to a handful of pairs by removals, then Add pairs
 			// that evict exactly those survivors (same key, same value, or both at once)
